@@ -156,6 +156,10 @@ func (c *c06Gen) strValue(maxLen int) string {
 	for i := 0; i < n; i++ {
 		sb.WriteRune(c06StrRunes[c.g.N(len(c06StrRunes))])
 	}
+	if c.g.Chance(1, 12) {
+		// a backslash followed by a newline, between printable characters: the one value a raw string can spell across two lines
+		return "p" + sb.String() + "z\\\nq"
+	}
 	return sb.String()
 }
 
@@ -175,9 +179,18 @@ func (c *c06Gen) spellStr(value string) string {
 		return g.Str("r", "R") + q + value + q
 	}
 	// raw string containing backslashes that are not escapes
-	if g.Chance(1, 8) {
+	if g.Chance(1, 8) || (strings.Contains(value, "\\\n") && g.Bool()) {
 		ok := true
-		for _, r := range rs {
+		for i, r := range rs {
+			nbs := 0
+			for j := i - 1; j >= 0 && rs[j] == '\\'; j-- {
+				nbs++
+			}
+			if r == '\n' && nbs%2 == 1 {
+				// in a raw string a backslash and the newline after it are both part of the value (and the literal goes on)
+				c.nperturb["raw-string-backslash-newline"] = true
+				continue
+			}
 			if r == '\'' || r == '"' || r < 0x20 || r == 0x7f {
 				ok = false
 			}
